@@ -12,6 +12,7 @@ from .cfg import cfg_of, enumerate_paths, PathLimit
 from .exprs import dotted, unparse, walk_no_nested, root_attr, ekey, strip_not
 
 STRUCTURAL = {'DELETE', 'PUSH', 'PUSHLIST', 'INSERT', 'INIT', 'REBUILD', 'REORDER', 'XFORM',
+              'REPLACE',
               'SELECT', 'EXTEND', 'SLICE', 'REPEAT', 'FLATTEN', 'BUILD', 'SET'}
 # order-preserving elementwise operations (MAP): not structural
 MAP_CALLS = {'np.array', 'np.asarray', 'np.copy', 'np.exp', 'np.log', 'np.abs', 'np.maximum',
@@ -149,6 +150,12 @@ class Tracker:
                     return evs
         if cn == 'np.delete' and value.args and self.same_place(value.args[0], T):
             return [('DELETE', self.key(nid, value.args[1]), None, {})]
+        if cn == 'np.insert' and len(value.args) >= 3 and isinstance(value.args[0], ast.Call) \
+                and dotted(value.args[0].func) == 'np.delete' and value.args[0].args and \
+                self.same_place(value.args[0].args[0], T) and \
+                self.key(nid, value.args[0].args[1]) == self.key(nid, value.args[1]):
+            # element i replaced, in place, by the elements of L
+            return [('REPLACE', self.key(nid, value.args[1]), value.args[2], {})]
         if cn == 'np.repeat' and value.args and self.same_place(value.args[0], T):
             axis = None
             for k in value.keywords:
@@ -264,6 +271,12 @@ class Tracker:
                     if not mo:
                         continue
                     m, idxs = mo
+                    if len(idxs) == 1 and isinstance(idxs[0], ast.Slice) and \
+                            idxs[0].lower is not None and idxs[0].upper is not None and \
+                            idxs[0].step is None and self._is_plus_one(idxs[0]):
+                        out.append(Event(m, 'list', None, 'REPLACE', self.key(nid, idxs[0].lower),
+                                         st.value, st, nid))
+                        continue
                     if len(idxs) >= 2 or (len(idxs) == 1 and self._elementwise_index(m)):
                         out.append(Event(m, 'elem', self.key(nid, idxs[0]), 'MARK', None,
                                          st.value, st, nid))
@@ -331,6 +344,16 @@ class Tracker:
                                          self.key(nid, idxs[0]) if idxs else None, 'REORDER',
                                          'shuffle', None, st, nid))
         return out
+
+    @staticmethod
+    def _is_plus_one(sl):
+        """slice i:i+1"""
+        u = sl.upper
+        return isinstance(u, ast.BinOp) and isinstance(u.op, ast.Add) and (
+            (unparse(u.left) == unparse(sl.lower) and isinstance(u.right, ast.Constant)
+             and u.right.value == 1) or
+            (unparse(u.right) == unparse(sl.lower) and isinstance(u.left, ast.Constant)
+             and u.left.value == 1))
 
     def _elementwise_index(self, member):
         return member in self.arrays
